@@ -1,46 +1,59 @@
 (** Control-flow skeleton of the functions that push/pop [Wtp.expand_stack]
-    (C16).  A function body is a block of statements; [Call f] calls nested
-    function number [f]; nondeterministic [If2] and [Loop] over-approximate
+    (C16).  A function body is a block of statements; [Call f] calls function
+    number [f]; nondeterministic [If2] and [Loop] over-approximate
     data-dependent control flow.  [Abort] is a path that raises (the property
-    speaks only of calls that return). *)
+    speaks only of calls that return).  [Leak] is an external call (into the
+    Lua runtime) during which callbacks may be aborted by an exception that
+    the callee swallows, leaving any number of extra entries.  [Restore b] is
+    the try/finally idiom "remember the length, run b, pop back down to the
+    remembered length". *)
 From Coq Require Import List ZArith Bool.
 Import ListNotations.
 Open Scope Z_scope.
 
 Inductive stmt :=
-| Push | Pop | Call (f : nat) | Ret | Cont | Brk | Abort
-| If2 (a b : blk) | Loop (b : blk)
+| Push | Pop | Call (f : nat) | Ret | Cont | Brk | Abort | Leak
+| If2 (a b : blk) | Loop (b : blk) | Restore (b : blk)
 with blk := Nil | Cons (s : stmt) (r : blk).
 
 Inductive kind := KNorm | KRet | KCont | KBrk.
 Definition kind_eqb (a b : kind) : bool :=
   match a, b with KNorm, KNorm | KRet, KRet | KCont, KCont | KBrk, KBrk => true | _, _ => false end.
 
-(* abstract summary: possible (exit kind, net stack change); None = cannot be bounded *)
-Definition summ := list (kind * Z).
+(* abstract outcome: exit kind and an interval [lo, hi] (hi = None: unbounded) for the net change *)
+Record aout := mk { ak : kind; lo : Z; hi : option Z }.
+Definition summ := list aout.
+
+Definition hi_add (a b : option Z) : option Z :=
+  match a, b with Some x, Some y => Some (x + y) | _, _ => None end.
+Definition is_zero (o : aout) : bool :=
+  Z.eqb (lo o) 0 && match hi o with Some h => Z.eqb h 0 | None => false end.
 
 Definition seq_summ (s r : summ) : summ :=
-  filter (fun o => negb (kind_eqb (fst o) KNorm)) s ++
-  flat_map (fun o => if kind_eqb (fst o) KNorm
-                     then map (fun o2 => (fst o2, snd o + snd o2)) r else []) s.
+  filter (fun o => negb (kind_eqb (ak o) KNorm)) s ++
+  flat_map (fun o => if kind_eqb (ak o) KNorm
+                     then map (fun o2 => mk (ak o2) (lo o + lo o2) (hi_add (hi o) (hi o2))) r else []) s.
 
 Definition loop_ok (b : summ) : bool :=
-  forallb (fun o => match fst o with KNorm | KCont => Z.eqb (snd o) 0 | _ => true end) b.
+  forallb (fun o => match ak o with KNorm | KCont => is_zero o | _ => true end) b.
 Definition loop_summ (b : summ) : summ :=
-  (KNorm, 0) :: flat_map (fun o => match fst o with
-                                    | KBrk => [(KNorm, snd o)]
-                                    | KRet => [(KRet, snd o)]
-                                    | _ => [] end) b.
+  mk KNorm 0 (Some 0) :: flat_map (fun o => match ak o with
+                                            | KBrk => [mk KNorm (lo o) (hi o)]
+                                            | KRet => [mk KRet (lo o) (hi o)]
+                                            | _ => [] end) b.
+Definition restore_summ (b : summ) : summ :=
+  map (fun o => mk (ak o) (Z.min (lo o) 0) (Some (match hi o with Some h => Z.min h 0 | None => 0 end))) b.
 
 Fixpoint summ_stmt (s : stmt) : option summ :=
   match s with
-  | Push => Some [(KNorm, 1)]
-  | Pop => Some [(KNorm, -1)]
-  | Call _ => Some [(KNorm, 0)]        (* callee assumed balanced: discharged for all functions together *)
-  | Ret => Some [(KRet, 0)]
-  | Cont => Some [(KCont, 0)]
-  | Brk => Some [(KBrk, 0)]
+  | Push => Some [mk KNorm 1 (Some 1)]
+  | Pop => Some [mk KNorm (-1) (Some (-1))]
+  | Call _ => Some [mk KNorm 0 (Some 0)]   (* callee assumed balanced: discharged for all functions together *)
+  | Ret => Some [mk KRet 0 (Some 0)]
+  | Cont => Some [mk KCont 0 (Some 0)]
+  | Brk => Some [mk KBrk 0 (Some 0)]
   | Abort => Some []
+  | Leak => Some [mk KNorm 0 None]
   | If2 a b => match summ_blk a, summ_blk b with
                | Some x, Some y => Some (x ++ y)
                | _, _ => None
@@ -49,10 +62,14 @@ Fixpoint summ_stmt (s : stmt) : option summ :=
               | Some x => if loop_ok x then Some (loop_summ x) else None
               | None => None
               end
+  | Restore b => match summ_blk b with
+                 | Some x => Some (restore_summ x)
+                 | None => None
+                 end
   end
 with summ_blk (b : blk) : option summ :=
   match b with
-  | Nil => Some [(KNorm, 0)]
+  | Nil => Some [mk KNorm 0 (Some 0)]
   | Cons s r => match summ_stmt s, summ_blk r with
                 | Some x, Some y => Some (seq_summ x y)
                 | _, _ => None
@@ -60,11 +77,11 @@ with summ_blk (b : blk) : option summ :=
   end.
 
 (* a function is balanced if every way of leaving it (falling off the end or
-   return) has net change 0 and no break/continue escapes *)
+   return) has net change exactly 0 and no break/continue escapes *)
 Definition fun_ok (b : blk) : bool :=
   match summ_blk b with
-  | Some x => forallb (fun o => match fst o with
-                                | KNorm | KRet => Z.eqb (snd o) 0
+  | Some x => forallb (fun o => match ak o with
+                                | KNorm | KRet => is_zero o
                                 | _ => false end) x
   | None => false
   end.
